@@ -296,7 +296,12 @@ Definition holds_joe_c17 (i o : val) : bool :=
                        else true) evs
   && negb (has_code 40 (after is_rep_panic evs))
   && negb (has_code 41 (after is_rep_panic evs))
-  && after_panic_ok complete evs.
+  && after_panic_ok complete evs
+  (* "later calls no longer use it" is said of a PANIC only: while the replayer has not panicked it is asked about
+     every publication - the loop starts no fan-out (loop.errs) for a publication it has not put to the replayer
+     (an error that Put returned, however often, never takes the replayer out of use) *)
+  && (norep_of i || existsb is_rep_panic evs
+      || forallb (fun e => if Nat.eqb (code e) 27 then has_ev 40 (a1 e) evs else true) evs).
 
 (* ---- C04 -------------------------------------------------------------------- *)
 Definition opt_bytes_eqb (a b : option bytes) : bool :=
